@@ -16,7 +16,7 @@ def run(ctx):
                         "S-lex as in C03 for the soups"]
     ctx.assumptions.append("inputs on which the analysis raises the listed arrow-pattern ambiguity error (C15 / C03 known finding) yield no measurements and are assumed away here")
     ctx.outside += ["soups longer than N", "more headers/blocks per pairing query"]
-    T = 240 if ctx.quick() else 900
+    T = 240 if ctx.quick() else 600
     jobs = []
     for nest in (True, False):
         for nh, nb in ((2, 3), (2, 2), (1, 3), (2, 1)):
